@@ -5,6 +5,7 @@ package verifcheck
 
 import (
 	"fmt"
+	"math"
 	"math/rand"
 	"path/filepath"
 	"runtime/debug"
@@ -67,6 +68,20 @@ func c07GenVec(t *rapid.T, dim int, earlier [][]float32, label string) []float32
 	v := make([]float32, dim)
 	for i := range v {
 		v[i] = rapid.SampledFrom(c07Grid).Draw(t, label+"_x")
+	}
+	if rapid.IntRange(0, 5).Draw(t, label+"_almostunit") == 0 {
+		// almost, but not exactly, unit length (as embeddings that were normalised elsewhere in lower precision
+		// are): the cosine metric must still divide by the true length
+		var n float64
+		for _, x := range v {
+			n += float64(x) * float64(x)
+		}
+		if n > 0 {
+			sc := rapid.SampledFrom([]float64{0.9996, 0.9998, 1.0002, 1.0004}).Draw(t, label+"_len") / math.Sqrt(n)
+			for i := range v {
+				v[i] = float32(float64(v[i]) * sc)
+			}
+		}
 	}
 	return v
 }
